@@ -105,7 +105,7 @@ class C12(Profile):
     wall_cap = {'quick': 1200, 'thorough': 6 * 3600}
     probes = ['optimizer_filters', 'attached_to_source', 'attached_to_composite', 'composite_facade', 'empty_result',
               'nonempty_result', 'timestamp_respelled', 'datetime_value', 'contradictory_type_filters', 'law_intersection',
-              'law_monotone', 'get_with_attached_filter', 'dotted_path', 'duplicate_filter']
+              'law_monotone', 'get_with_attached_filter', 'dotted_path', 'duplicate_filter', 'store_changed_between_queries', 'coarse_file_timestamps']
     rule = ('plans: a population of 3-25 object versions added identically to a MemoryStore and a FileSystemStore (simulated disk), then '
             '30-80 queries whose filters are generated from the population (all 8 operators, 17 property paths, hits and near misses, '
             'type/id optimiser mixes) and delivered as argument / attached to the source / attached to a composite; '
@@ -116,7 +116,7 @@ class C12(Profile):
     components = dict(COMPONENTS_COMMON,
                       real=COMPONENTS_COMMON['real'] + ['stix2.datastore.filters', 'stix2.datastore.memory', 'stix2.datastore.filesystem',
                                                         'stix2.datastore.CompositeDataSource', 'tmpfs'],
-                      simulated=COMPONENTS_COMMON['simulated'] + ['readdir order'])
+                      simulated=COMPONENTS_COMMON['simulated'] + ['readdir order', 'file time stamps (disk-owned clock, plan-chosen granularity)'])
 
     def generate(self, rng, index, tier):
         with_unreg = rng.random() < 0.25
@@ -125,7 +125,7 @@ class C12(Profile):
         # although dict-kept objects are present - the region of a known finding
         respell_on_dicts = with_unreg and rng.random() < 0.3
         cfg = {'m_allow_custom': True, 'fs_allow_custom': True, 'bundlify': rng.random() < 0.15, 'ms_only': with_unreg and not respell_on_dicts,
-               'respell_on_dicts': respell_on_dicts}
+               'respell_on_dicts': respell_on_dicts, 'mtime_gran': rng.choice([1, 1, 4, 0]), 'early_parse': rng.random() < 0.3}
         n_ids = rng.randrange(2, 9)
         pool = SW.gen_pool(rng, index, n_ids, rng.choice([1, 2, 3, 4]), kinds)
         for e in pool:
@@ -166,6 +166,16 @@ class C12(Profile):
             if op['op'] != 'query':
                 op['k'] = rng.randrange(n_ids)
             ops.append(op)
+        if rng.random() < 0.4 and len(items) > 2:
+            # history: part of the population arrives BETWEEN the queries (in the original order), so that queries run
+            # before and after a store changed under sources that have already been read
+            n_add = len(items)
+            late = ops[n_add - max(1, n_add // 3):n_add]
+            rest = ops[:n_add - len(late)] + ops[n_add:]
+            pos = sorted(rng.randrange(n_add - len(late), len(rest) + 1) for _ in late)
+            for off, (at, a) in enumerate(zip(pos, late)):
+                rest.insert(at + off, dict(a, late=True))
+            ops = rest
         return {'config': cfg, 'pool': pool, 'ops': ops}
 
     def simplify(self, op):
@@ -220,6 +230,8 @@ class C12(Profile):
                 world.changed()
             elif key not in self.raw[store]:
                 world.stat('add_raised')
+        if op.get('late'):
+            world.probe('store_changed_between_queries')
         world.log(op='add', key=SW.kstr(SW.key_of(d)))
 
     def mkfilter(self, sw, f):
